@@ -61,17 +61,25 @@ func VerifH09aExecutionOrder() {
 		arg string
 	}
 	text := ""
+	// line endings of the file, and optionally a quoted argument that spans two lines
+	le := []string{"\n", "\r\n"}[verifrt.Choose("line-ending", 2)]
+	multiline := verifrt.Bool("quoted-multiline-argument")
 	var blocks [][]line
 	for b := 0; b < nblocks; b++ {
 		k := verifrt.IntRange("nlines", 0, 3)
 		var ls []line
-		text += []string{"siteA", "siteB"}[b] + " {\n"
+		text += []string{"siteA", "siteB"}[b] + " {" + le
 		for i := 0; i < k; i++ {
 			l := line{dir: verifrt.Choose("dir", len(zzDocumented)), arg: []string{"x", "y", "z"}[i]}
+			written := l.arg
+			if multiline && i == 0 {
+				l.arg = "p" + le + "q" // the value between the quotes, exactly as written
+				written = "\"" + l.arg + "\""
+			}
 			ls = append(ls, l)
-			text += "\t" + zzDocumented[l.dir] + " " + l.arg + "\n"
+			text += "\t" + zzDocumented[l.dir] + " " + written + le
 		}
-		text += "}\n"
+		text += "}" + le
 		blocks = append(blocks, ls)
 	}
 	// optionally a rejected load came first in this process (unknown directive, or a syntax error)
